@@ -220,10 +220,15 @@ impl<F: Write + Seek> Allocator<F> {
     ) -> io::Result<u32> {
         debug_assert_ne!(start_sector_id, consts::END_OF_CHAIN);
         let mut last_sector_id = start_sector_id;
+        let mut num_sectors = 0;
         loop {
-            let next = self.fat[last_sector_id as usize];
+            let next = self.next(last_sector_id)?;
             if next == consts::END_OF_CHAIN {
                 break;
+            }
+            num_sectors += 1;
+            if num_sectors > self.fat.len() {
+                malformed!("chain starting at {} has a loop", start_sector_id);
             }
             last_sector_id = next;
         }
